@@ -34,11 +34,11 @@ def plan(tier):
 
 
 def gen_cases(ctx):
-    for i in range(ctx.share(ctx.scale(240, 8000))):
+    for i in range(ctx.share(ctx.scale(240, 50000))):
         rng = ctx.rng(1, i)
         yield {"kind": "archive", "seed": int(rng.integers(1 << 31)), "n_minerals": int(rng.integers(1, 9)),
                "whole_first": bool(rng.random() < 0.4)}
-    for i in range(ctx.share(ctx.scale(120, 3000))):
+    for i in range(ctx.share(ctx.scale(120, 20000))):
         rng = ctx.rng(2, i)
         yield {"kind": "reject", "seed": int(rng.integers(1 << 31)),
                "fault": ["snapshot_counts", "n_grains", "ragged", "name_noext", "name_dat", "name_bak", "name_dat_postfix",
